@@ -39,7 +39,7 @@ TABLE = [
     ('SchedulerContext', 'commit_cursor', [('PublishedCursor::reader', ['f:SchedulerContext.committed'])], 'c:PublishedCursor::reader'),
     ('SchedulerContext', 'validation_idx', [('RewindableCursor::get', ['f:SchedulerContext.validation'])], 'c:RewindableCursor::get'),
     ('SchedulerContext', 'executed', [('ExecutionFrontier::publish', ['f:SchedulerContext.execution_frontier', '$2'])], None),
-    ('SchedulerContext', 'finished', [('PublishedCursor::get', ['f:SchedulerContext.finality'])], None),
+    ('SchedulerContext', 'finished', [], None),
     ('SchedulerContext', 'logical_timestamp', [('::fetch_add', ['f:SchedulerContext.logical_clock', 'const:1_usize'])], 'c:::fetch_add'),
     ('scheduler::cursor::PublishedCursor', 'publish', [('::store', ['f:PublishedCursor.0', '$2'])], None),
     ('scheduler::cursor::PublishedCursor::get', 'get', [('::load', ['f:PublishedCursor.0'])], 'c:::load'),
@@ -95,8 +95,12 @@ def P_pairing(ctx):
         if meth == 'finished':
             for p in ps:
                 ret = [e for e in p.events if e.kind == 'ret'][0].d['value']
-                if not (ret[0] == 'bin' and ret[1] == 'Ge' and has_call(ret[2], 'PublishedCursor::get') and is_field(strip(ret[3]), 'SchedulerContext.num_txs')):
-                    bad.append('finished is not finality.get() >= num_txs')
+                fin = lambda t: (t[0] == 'call' and ((callee_matches(t[1], 'PublishedCursor::get') and mentions_field(t[2][0], 'SchedulerContext.finality'))
+                                                     or callee_matches(t[1], 'SchedulerContext::finality_idx')))
+                num = lambda t: is_field(strip(t), 'SchedulerContext.num_txs')
+                okf = ret[0] == 'bin' and ((ret[1] == 'Ge' and fin(ret[2]) and num(ret[3])) or (ret[1] == 'Le' and num(ret[2]) and fin(ret[3])))
+                if not okf:
+                    bad.append('finished is not (finality cursor) >= num_txs')
         if not bad:
             n_ok += 1
         ctx.ob(rid, f, 'touches-exactly-its-field', bool(ps) and not bad, '; '.join(sorted(set(bad))[:2]), site=f.loc(f.b['lo']),
@@ -314,7 +318,16 @@ def P2_more_pairing(ctx):
     for p in feasible(f.paths()):
         pu = [e for e in p.events if e.kind == 'call' and norm_callee(e.d['callee']).endswith('Vec::push') and mentions_field(e.d['args'][0], 'OrderedCommitOutput.outcomes')]
         r = ret_of(p)
-        ok = len(pu) == 1 and pu[0].d['args'][1][0] == 'agg' and pu[0].d['args'][1][2] == 'Executed' and pu[0].d['args'][1][3] == (('arg', 2),) and r[0] == 'call' and r[1].endswith('OrderedCommitOutput::end')
+        # the returned boundary is the outcome count after the push: `self.end()` or its body `CommittedPrefixEnd::new(self.outcomes.len())`
+        end_ok = r[0] == 'call' and (r[1].endswith('OrderedCommitOutput::end') or
+                                     (r[1].endswith('CommittedPrefixEnd::new') and r[2][0][0] == 'call' and r[2][0][1].endswith('::len') and mentions_field(r[2][0], 'OrderedCommitOutput.outcomes')))
+        if r[0] == 'agg' and r[1].endswith('CommittedPrefixEnd') and r[3] and r[3][0][0] == 'call' and r[3][0][1].endswith('::len') and mentions_field(r[3][0], 'OrderedCommitOutput.outcomes'):
+            end_ok = True
+        if end_ok and pu:
+            # ... and it is computed after the push
+            lens = [e for e in p.events if e.kind == 'call' and (e.d['callee'].endswith('::len') or e.d['callee'].endswith('OrderedCommitOutput::end'))]
+            end_ok = bool(lens) and idx_of(p, lens[-1]) > idx_of(p, pu[0])
+        ok = len(pu) == 1 and pu[0].d['args'][1][0] == 'agg' and pu[0].d['args'][1][2] == 'Executed' and pu[0].d['args'][1][3] == (('arg', 2),) and end_ok
     ob(f, 'push-appends-executed-and-returns-end', ok, '', 'the committed boundary is the number of outcomes pushed')
     f = ctx.method('scheduler::ordered_commit::OrderedCommitOutput', 'end')
     ok = False
@@ -338,9 +351,9 @@ def P2_more_pairing(ctx):
             ok = fl['logical_clock'][2] == (('const', '1_usize'),) and fl['validation'][2] == (('const', '0_usize'),) and fl['finality'][2] == (('const', '0_usize'),) \
                 and fl['committed'][2] == (('const', '0_usize'),) and fl['num_txs'] == ('arg', 1)
     ob(f, 'initial-cursors-zero-clock-one', ok, '', 'timestamps are compared strictly with lower bounds that start at 0: the clock must start above 0 or the first validation can never finalise')
-    cls = ctx.facts.closures_of(f.name)
-    okz = all(any('0_usize' in show(ret_of(p)) for p in feasible(ctx.fn(c).paths())) for c in cls) and len(cls) >= 2
-    ob(f, 'timestamps-start-at-zero', okz)
+    cls = [c for c in ctx.facts.closures_under(f.name) if any('AtomicUsize' in show(ret_of(p)) or 'Atomic' in show(ret_of(p)) for p in feasible(ctx.fn(c).paths()))]
+    okz = all(all('0_usize' in show(ret_of(p)) for p in feasible(ctx.fn(c).paths())) for c in cls) and len(cls) >= 1
+    ob(f, 'timestamps-start-at-zero', okz, f'{len(cls)} element constructor closure(s) under SchedulerContext::new')
     f = ctx.method('tx_dependency::TxDependency', 'new')
     ok = False
     for p in feasible(f.paths()):
